@@ -16,6 +16,9 @@ type Plan struct {
 	// ops refer to a client by index. SharedHTTP: all clients share one *http.Client.
 	Clients    [][]Opt `json:"clients,omitempty"`
 	BaseSlash  bool    `json:"base_slash,omitempty"`
+	// MountPrefix: the servers sit behind a gateway that serves them under this path prefix and
+	// strips it (http.StripPrefix, an ingress rule); clients are given a base URL that carries it
+	MountPrefix string `json:"mount_prefix,omitempty"`
 	SharedHTTP bool    `json:"shared_http,omitempty"`
 	// TimeoutMs is http.Client.Timeout (0 = none).
 	TimeoutMs int `json:"timeout_ms,omitempty"`
@@ -42,6 +45,8 @@ type Plan struct {
 	// Mock seam (C20): results of the generated mock's rand.Intn calls; crypto/rand failure.
 	MockInts       []int `json:"mock_ints,omitempty"`
 	MockCryptoFail bool  `json:"mock_crypto_fail,omitempty"`
+	// FreshMock: every mock request constructs its own NewMock<Svc>Server() inside its handler task
+	FreshMock bool `json:"fresh_mock,omitempty"`
 }
 
 // HookPlan scripts the server's error hook.
